@@ -398,3 +398,9 @@ func Acquisitions(mu any) int { return 0 }
 // critical sections, the heap graph); it has no native counterpart and a
 // violation is reported without native replay.
 func AssertEngine(c bool, label string) {}
+
+// RunGoroutines runs, one after the other and each until it returns or blocks
+// forever, the goroutines started by go statements met so far (engine only: the
+// engine does not run a goroutine at its go statement; natively they run by
+// themselves).
+func RunGoroutines() {}
